@@ -37,7 +37,7 @@ PROPS = {
     'C27': dict(
         text='The mechanism model stores bodies by hash before execution, keeps errLog on index nodes and does not roll a failed '
              'reorganisation back, as the code does; TLC refutes the C27 clauses on it (candidates). Every delivery order of '
-             'small trees with a tampered body behind a genuine header (5 tampering kinds), blocks invalid by themselves (6 '
+             'small trees with a tampered body behind a genuine header (5 tampering kinds, and a bad block signature with all / some / none of the transactions already in the pool of the receiver), blocks invalid by themselves (6 '
              'kinds + wrong height), peer and download pids is replayed on real nodes: conformance with the model after every '
              'delivery, and the clauses of C27 evaluated on the real observations (rejected delivery leaves the best chain '
              'unchanged; a valid block is accepted once its genuine body arrives; a rejected body is not served under the hash). '
@@ -169,7 +169,7 @@ def _run_bad(ctx, b, q):
     allb = ctx.tlc_genall('Chain_All', _cfg(ctx, d, 'Chain_All.cfg', 'Chain_AllBad.cfg', Trees=trees, Variants='{"g", "t"}',
                                              Pids='{"peer", "download"}'), stage=d, timeout=3600)
     ctx.extra['exhaustive_delivery_orders'] = len(allb)
-    kinds = ['subst', 'sig', 'dupdrop', 'reorder', 'payload']
+    kinds = ['subst', 'sig', 'dupdrop', 'reorder', 'payload', 'blocksig']
     bk = ['state', 'txroot', 'time', 'drop', 'add', 'duptail']
     if q:
         pool = allb[::3]
@@ -188,9 +188,12 @@ def _run_bad(ctx, b, q):
     for k in range(len(kinds)):
         sel = pool[k::len(kinds)]
         if sel:
-            ctx.replay(b, sel, opts=dict(via='process', tkind=kinds[k], bkind=bk[k % len(bk)], clause='ab', salt=k), par=8, timeout=10800)
+            # blocksig: genuine transactions behind a block signature that does not verify, with every transaction
+            # already in the receiver's pool (pooled transactions are not verified again; the block signature must be)
+            ctx.replay(b, sel, opts=dict(via='process', tkind=kinds[k], bkind=bk[k % len(bk)], clause='ab', salt=k, pool='all'),
+                       par=8, timeout=10800)
     # clause c (a rejected body is still served) is masked by clause b in complete orders: evaluate it alone on a subset
-    ctx.replay(b, pool[::3], opts=dict(via='process', clause='c', salt=7), par=8, timeout=10800, count=False)
+    ctx.replay(b, pool[::3], opts=dict(via='process', clause='c', salt=7, tkind='blocksig', pool='mix'), par=8, timeout=10800, count=False)
     ctx.replay(b, pool[1::5], opts=dict(via='bus', clause='ab', salt=8, bkind=bk[5]), par=8, timeout=10800, count=False)
     _validate(ctx, b, d, dict(n=4 if q else 24, size=7 if q else 10, bad=1))
 
